@@ -818,10 +818,6 @@ func (c *TermCtx) Extract(a *Term, hi, lo int) *Term {
 		if w <= 8 {
 			return c.Bin(a.Op, c.Extract(a.A[0], hi, lo), c.Extract(a.A[1], hi, lo))
 		}
-	case OpAdd, OpSub, OpMul:
-		if lo == 0 {
-			return c.Bin(a.Op, c.Extract(a.A[0], hi, 0), c.Extract(a.A[1], hi, 0))
-		}
 	}
 	return c.node(OpExtract, w, hi, lo, "", a)
 }
